@@ -30,8 +30,20 @@ def render_utt(words, sep, with_phones):
     return w.join(''.join(word) for word in words) + (w if w != ' ' else '')
 
 
-def make_case(ons, vow, sep, filling, words_per_utt, with_phones, strip, tolerant, family, valid):
-    text = [render_utt(ws, sep, with_phones) for ws in words_per_utt]
+_BLANK_RNG = __import__('random').Random(14)
+
+
+def make_case(ons, vow, sep, filling, words_per_utt, with_phones, strip, tolerant, family, valid, blanks=None):
+    words_per_utt = [list(ws) for ws in words_per_utt]
+    if blanks is None:
+        blanks = _BLANK_RNG.random() < 0.35 and len(words_per_utt) > 0
+    if blanks:
+        # blank utterances (no word at all) among the others: each is an utterance like any other, it comes back as
+        # an empty line at its place, also when other utterances are dropped in tolerant mode
+        for _ in range(_BLANK_RNG.randint(1, 2)):
+            words_per_utt.insert(_BLANK_RNG.randint(0, len(words_per_utt)), [])
+        family = family + '+blank'
+    text = [render_utt(ws, sep, with_phones) if ws else _BLANK_RNG.choice(['', '  ', '\t']) for ws in words_per_utt]
     vowel_chars = set(vow)
 
     def oracle(out):
@@ -49,11 +61,11 @@ def make_case(ons, vow, sep, filling, words_per_utt, with_phones, strip, toleran
                     return 'a text of syllabifiable words raised ' + out[1]
                 # multi-character phones: the words are syllabifiable character by character, so the
                 # only legitimate reason to refuse the utterance is a syllable boundary inside a phone
-                plain = impl_syllabify(ons, vow, sep, filling, [render_utt(ws, sep, False) for ws in words_per_utt], False, False)
+                plain = impl_syllabify(ons, vow, sep, filling, [render_utt(ws, sep, False) for ws in words_per_utt if ws], False, False)
                 if plain[0] != 'ok':
                     return 'a text of syllabifiable words raised %s (also without phone separators)' % plain[1]
                 cut = False
-                for ws, o in zip(words_per_utt, plain[1]):
+                for ws, o in zip([ws for ws in words_per_utt if ws], plain[1]):
                     for w, wo in zip(ws, S.tokenize(o, 'word', keep_boundaries=True)):
                         pb, k = set(), 0
                         for ph in w:
@@ -277,7 +289,7 @@ def main():
             st, tol = rng.random() < 0.5, rng.random() < 0.5
             text = [render_utt(ws, sep, with_phones) for ws in utts]
             out = call_impl(lambda: inst.syllabify(list(text), strip=st, tolerant=tol))
-            c = make_case(ons, vow, sep, filling, utts, with_phones, st, tol, 'history-same-instance', True)
+            c = make_case(ons, vow, sep, filling, utts, with_phones, st, tol, 'history-same-instance', True, blanks=False)
             c['impl'] = (lambda out=out: out)
             fresh = impl_syllabify(ons, vow, sep, filling, text, st, tol)
             c['oracle'] = (lambda o, fresh=fresh: None if o == fresh else
